@@ -567,6 +567,18 @@ func longTakes(part, parts int) {
 	total := ctx.Pick(1500, 20000)
 	gapc := []int32{0, 1, 3, 20}
 	k := 0
+	if part == 0 {
+		// one take of 40000 channel messages (past every power of two up to 2^15)
+		n := 40000
+		seq := make([]ls.SMsg, 0, n)
+		sl := make([]int32, 0, n)
+		for i := 0; i < n; i++ {
+			seq = append(seq, kinds[i%3])
+			sl = append(sl, gapc[i%4]%2)
+		}
+		record(seq, sl, 120, 960, "track")
+		ctx.Add("long_takes", 1)
+	}
 	for a := range kinds {
 		for b := -1; b < len(kinds); b++ {
 			k++
